@@ -10,6 +10,7 @@ use crate::run::*;
 use crate::sup::*;
 use serde::{Deserialize, Serialize};
 use serde_json::{json, Value};
+use std::collections::BTreeMap;
 
 pub struct C09;
 
@@ -17,6 +18,61 @@ pub struct C09;
 pub struct Unit {
     pub level: Level,
     pub len: usize,
+    /// an optional `literal("+ext").anywhere()` declared before the positionals: it takes the
+    /// first `+ext` wherever it stands (also right of `--`), the positionals see the rest
+    #[serde(default)]
+    pub literal: bool,
+}
+
+const LIT: &str = "+ext";
+
+fn unit_opts(u: &Unit) -> Opts {
+    let mut o = u.level.to_opts();
+    if u.literal {
+        if let P::Seq(v) = &mut o.p {
+            v.insert(0, P::LiteralAnywhere(LIT.into()).opt());
+        }
+    }
+    o
+}
+
+/// judge one vector; with the literal the reference scanner sees the line without the first
+/// `+ext` and its value gets the literal's field in front
+fn judge_unit(u: &Unit, unit: &Value, model: &Model, p: &bpaf::OptionParser<Val>, argv: &[Tok], env: &Env, ctx: &mut Ctx) {
+    if !u.literal {
+        judge("C09", &u.level, unit, model, p, argv, env, ctx);
+        return;
+    }
+    let at = argv.iter().position(|t| t.0 == LIT.as_bytes());
+    let mut rest = argv.to_vec();
+    if let Some(i) = at {
+        rest.remove(i);
+    }
+    let m = model.run(&rest, env);
+    let r = run(p, argv);
+    let ok = match (&m, &r) {
+        (Out::Unspec(_), _) => {
+            ctx.s.skipped += 1;
+            return;
+        }
+        (Out::Ok(Val::T(fields)), Outcome::Value(Val::T(got))) => {
+            let mut want = vec![if at.is_some() { Val::some(Val::U) } else { Val::No }];
+            want.extend(fields.iter().cloned());
+            want == *got
+        }
+        (Out::Fail, Outcome::Stderr(t)) => !t.trim().is_empty(),
+        _ => false,
+    };
+    if ok {
+        ctx.s.validated += 1;
+        ctx.s.nontrivial += 1;
+        ctx.count("lines-with-an-anywhere-literal-judged");
+        return;
+    }
+    let mut sig = BTreeMap::new();
+    sig.insert("def".to_string(), format!("literal-anywhere+{}", crate::checks::c01::sig_level(&u.level)));
+    sig.insert("observed".to_string(), r.class().to_string());
+    ctx.violation(Violation { property: "C09".into(), rule: "strictness-holds-beside-an-anywhere-item".into(), sig, unit: unit.clone(), case: json!({"argv": argv}), expected: format!("{:?} for the line without the first {}", m, LIT), observed: r.brief(), size: argv.len() * 1000 });
 }
 
 pub fn pos_tails() -> Vec<Vec<PosItem>> {
@@ -97,6 +153,46 @@ pub fn c09_alphabet(l: &Level) -> Vec<Tok> {
     out
 }
 
+/// the same holds while completing: with the separator somewhere left of the word being typed
+/// no option or command name may be offered (the data right of `--` is never a name)
+fn completion_clause(u: &Unit, unit: &Value, p: &bpaf::OptionParser<Val>, argv: &[Tok], ctx: &mut Ctx) {
+    let dd = match argv.iter().position(|t| t.0 == b"--") {
+        Some(d) if d + 1 < argv.len() => d,
+        _ => return,
+    };
+    if argv[..dd].iter().any(|t| t.0 == RESERVED.as_bytes()) || argv.iter().any(|t| t.utf8().is_none()) {
+        return;
+    }
+    ctx.s.evaluations += 1;
+    let text = match run_comp(p, argv, 0, None) {
+        Outcome::Completion(t) => t,
+        _ => return, // C14 judges "always completion output"
+    };
+    let typed = argv[argv.len() - 1].lossy();
+    let rows = crate::checks::c14::parse_rows(&text, &typed);
+    let mut names: Vec<String> = vec!["--help".into(), "-h".into()];
+    u.level.walk(
+        &mut |l, _| {
+            for n in &l.named {
+                names.extend(n.names.shorts.iter().map(|c| format!("-{}", c)));
+                names.extend(n.names.longs.iter().map(|c| format!("--{}", c)));
+            }
+            if let Tail::Cmds { cmds, .. } = &l.tail {
+                names.extend(cmds.iter().map(|c| c.name.clone()));
+            }
+        },
+        0,
+    );
+    match rows.substs.iter().find(|sb| names.contains(sb) && **sb != typed) {
+        None => ctx.count("completion-right-of-the-separator-judged"),
+        Some(sb) => {
+            let mut sig = BTreeMap::new();
+            sig.insert("clause".to_string(), "completion".to_string());
+            ctx.violation(Violation { property: "C09".into(), rule: "completion-offers-no-names-right-of-the-separator".into(), sig, unit: unit.clone(), case: json!({"argv": argv, "completion": true}), expected: "no option or command name among the candidates".into(), observed: format!("{} offered: {:?}", sb, text), size: argv.len() * 1000 });
+        }
+    }
+}
+
 impl Check for C09 {
     fn id(&self) -> &'static str {
         "C09"
@@ -111,23 +207,29 @@ impl Check for C09 {
             let k = t.len();
             let len = tier.pick(if k >= 3 { 4 } else { 5 }, 6);
             // beside nothing / a switch / an argument
-            out.push(Unit { level: fam::leaf(vec![], tail.clone()), len: len + tier.pick(1, 1) });
-            out.push(Unit { level: fam::leaf(vec![fam::named(0, Kind::Switch, 1, seed)], tail.clone()), len });
-            out.push(Unit { level: fam::leaf(vec![fam::named(1, Kind::ArgOpt, 0, seed)], tail.clone()), len });
+            out.push(Unit { level: fam::leaf(vec![], tail.clone()), len: len + tier.pick(1, 1), literal: false });
+            // beside an item that may be taken from anywhere, also from the right of `--`
+            out.push(Unit { level: fam::leaf(vec![], tail.clone()), len, literal: true });
+            out.push(Unit { level: fam::leaf(vec![fam::named(0, Kind::Switch, 1, seed)], tail.clone()), len, literal: false });
+            out.push(Unit { level: fam::leaf(vec![fam::named(1, Kind::ArgOpt, 0, seed)], tail.clone()), len, literal: false });
             // below a sub-command
             let sub = fam::leaf(vec![], tail.clone());
-            out.push(Unit { level: fam::leaf(vec![fam::named(0, Kind::Switch, 1, seed)], Tail::Cmds { cmds: vec![CmdDef { name: "cmd".into(), shorts: vec![], longs: vec![], level: sub }], wrap: CmdWrap::Required }), len });
+            out.push(Unit { level: fam::leaf(vec![fam::named(0, Kind::Switch, 1, seed)], Tail::Cmds { cmds: vec![CmdDef { name: "cmd".into(), shorts: vec![], longs: vec![], level: sub }], wrap: CmdWrap::Required }), len, literal: false });
         }
         out.into_iter().map(|u| serde_json::to_value(u).unwrap()).collect()
     }
     fn run_unit(&self, unit: &Value, ctx: &mut Ctx) {
         let u: Unit = serde_json::from_value(unit.clone()).unwrap();
-        let p = match build_checked(&u.level.to_opts()) {
+        let p = match build_checked(&unit_opts(&u)) {
             Ok(p) => p,
             Err(_) => return,
         };
         let model = Model::new(&u.level);
-        let alpha = c09_alphabet(&u.level);
+        let mut alpha = c09_alphabet(&u.level);
+        if u.literal {
+            alpha.retain(|t| t.0 != RESERVED.as_bytes() && t.0 != b"-z");
+            alpha.push(Tok::s(LIT));
+        }
         let env = Env::new();
         tree(&alpha, u.len, &mut |argv| {
             ctx.begin_case(|| json!({"argv": argv}));
@@ -147,21 +249,26 @@ impl Check for C09 {
             if argv[dd..].iter().any(|t| t.0 == RESERVED.as_bytes()) {
                 ctx.count("reserved-option-name-right-of-separator");
             }
-            judge("C09", &u.level, unit, &model, &p, argv, &env, ctx);
+            judge_unit(&u, unit, &model, &p, argv, &env, ctx);
+            completion_clause(&u, unit, &p, argv, ctx);
             true
         });
     }
     fn replay(&self, unit: &Value, case: &Value, ctx: &mut Ctx) {
         let u: Unit = serde_json::from_value(unit.clone()).unwrap();
         let argv: Vec<Tok> = serde_json::from_value(case["argv"].clone()).unwrap_or_default();
-        if let Ok(p) = build_checked(&u.level.to_opts()) {
+        if let Ok(p) = build_checked(&unit_opts(&u)) {
             let model = Model::new(&u.level);
             ctx.s.evaluations += 1;
-            judge("C09", &u.level, unit, &model, &p, &argv, &Env::new(), ctx);
+            if case["completion"].as_bool() == Some(true) {
+                completion_clause(&u, unit, &p, &argv, ctx);
+            } else {
+                judge_unit(&u, unit, &model, &p, &argv, &Env::new(), ctx);
+            }
         }
     }
     fn rule(&self) -> String {
-        "definitions = every unambiguous positional suffix of 0..3 items (required* then required|optional|many|some; plus non_strict variadic followed by strict items) with every strictness assignment {unrestricted, strict, non_strict}, beside nothing / a switch / an optional argument / below a sub-command; every vector of the token tree over {v, w, -, --, --help, -z, --bpaf-complete-rev=8 (the parser's own reserved option: judged right of `--` only, where it is data), declared names, --name, --name=--, command name}; judged by the reference scanner: first `--` splits, is never delivered, right side is verbatim positional data (so `-- --help` is data), left words go to unrestricted/non_strict positionals and right words to unrestricted/strict ones in order; `--name --` fails, `--name=--` delivers `--`; state = (definition, vector)".into()
+        "definitions = every unambiguous positional suffix of 0..3 items (required* then required|optional|many|some; plus non_strict variadic followed by strict items) with every strictness assignment {unrestricted, strict, non_strict}, beside nothing / a switch / an optional argument / below a sub-command / an optional literal +ext declared anywhere() (taken from either side of `--` before the positionals look); every vector of the token tree over {v, w, -, --, --help, -z, --bpaf-complete-rev=8 (the parser's own reserved option: judged right of `--` only, where it is data), declared names, --name, --name=--, command name}; judged by the reference scanner: first `--` splits, is never delivered, right side is verbatim positional data (so `-- --help` is data), left words go to unrestricted/non_strict positionals and right words to unrestricted/strict ones in order; `--name --` fails, `--name=--` delivers `--`; plus, in completion mode (revision 0), every vector with the separator left of the word being typed: no option or command name among the candidates; state = (definition, vector)".into()
     }
     fn bounds(&self, tier: Tier) -> Value {
         json!({"positionals": "0..3", "vector_length": tier.pick("5 (4 with three positionals; +1 for positional-only levels)", "6 (7 for positional-only levels)")})
